@@ -169,7 +169,8 @@ def check_site(prog, rep, entry, site, np_funcs, kind, np_path=None):
         # ---- H2 boundary
         b = site.kwargs.get('boundary')
         bt = norm(b) if b is not None else None
-        okb = bt in NAN_TEXTS or bt in ("'none'", '"none"', 'None')
+        from ..astutil import is_nan_expr as _isnan
+        okb = bt in NAN_TEXTS or bt in ("'none'", '"none"', 'None') or (b is not None and _isnan(b))
         rep.add('H2', f, entry, 'boundary=%s in %s' % (bt, text[:80]), site.call.lineno, okb,
                 "halo cells outside the raster must be NaN (or no external padding): the numpy path sees NaN-"
                 "initialised borders / clipped windows there; dask's default 'reflect', 'periodic', 'nearest' or a "
